@@ -26,8 +26,9 @@ CTypes == {"text/plain; charset=utf-8", "image/png", "application/json"}
    reconfigured (Update) to min length 100; "fast": a server using a compress profile of its own (gzip 1, br 1);
    "lvl10": a profile asking for level 10 of both codings (valid for br, beyond gzip's scale: gzip falls back to its default);
    "cfgjson" / "cfgdefault": the first and the second server of one configuration applied the way a configuration file
-   is (server.Reset): the first sets the filter `json|png`, the second sets nothing (so: the defaults) *)
-Settings == {"default", "min100", "filterplain", "min100u", "fast", "lvl10", "cfgjson", "cfgdefault"}
+   is (server.Reset): the first sets the filter `json|png`, the second sets nothing (so: the defaults);
+   "filteru0": a server created with the filter `json` and then reconfigured (Update) without any filter (so: the default) *)
+Settings == {"default", "min100", "filterplain", "min100u", "fast", "lvl10", "cfgjson", "cfgdefault", "filteru0"}
 Paths == {"first", "hit", "restore", "pass", "post"}
 
 AccBr(a) == a \in {"br", "gzip, deflate, br"}
@@ -90,8 +91,9 @@ Shapes ==
                                     g \in {"default", "min100", "filterplain", "min100u", "fast", "lvl10"}}
   \cup {Shape(s, "normal", t, "default", 404, 1) : s \in Sizes, t \in PlainPng}
   \cup {Shape(s, "normal", "application/json", g, 200, 1) : s \in {"below", "above", "large"},
-                                                            g \in {"default", "filterplain", "cfgjson", "cfgdefault"}}
-  \cup {Shape(s, "normal", t, g, 200, 1) : s \in {"below", "above", "large"}, t \in PlainPng, g \in {"cfgjson", "cfgdefault"}}
+                                                            g \in {"default", "filterplain"}}
+  \cup {Shape(s, "normal", t, g, 200, 1) : s \in {"below", "above", "large"}, t \in PlainPng \cup {"application/json"},
+                                           g \in {"cfgjson", "cfgdefault", "filteru0"}}
   \cup {Shape("large", "extreme", t, "default", 200, 1) : t \in PlainPng}
   \cup {Shape(s, "normal", t, "default", 200, 2) : s \in {"above", "large"}, t \in PlainPng}
 GoodShapes == {x \in Shapes : x.ratio \in RatiosOf(x.size) \cup {"extreme"}}
@@ -104,12 +106,17 @@ Cells ==
 
 Relevant(c) == c.members = 2 => c.upenc = "gzip"
 
+(* one more case, of another kind: a server is reconfigured back and forth between {min length 10, filter json} and
+   {min length 100000, filter text} while clients accepting br ask for a text/plain body of 2000 bytes, which neither
+   configuration compresses: no response may be compressed (a response is decided under one configuration, not a mixture) *)
+StormCase == [storm |-> TRUE, requests |-> 4000]
+
 VARIABLE l
 
 EmitInit ==
   /\ l = 0
   /\ LET Q == SetToSeq({c \in Cells : Relevant(c)})
-     IN ndJsonSerialize(IOEnv.OUT, [i \in 1..Len(Q) |-> Q[i] @@ [expected |-> SetToSeq(Expected(Q[i]))]])
+     IN ndJsonSerialize(IOEnv.OUT, [i \in 1..Len(Q) |-> Q[i] @@ [expected |-> SetToSeq(Expected(Q[i]))]] \o <<StormCase>>)
 EmitNext == FALSE /\ l' = l
 
 Obs == ndJsonDeserialize(IOEnv.OBS)
@@ -141,11 +148,15 @@ OkC13(o) ==
   (* the decision depends on nothing else: the same client asking again after a client without Accept-Encoding was
      served from the same entry gets the same encoding *)
   /\ (c.path \in {"hit", "restore"}) => o.ceAgain = o.ce
+  (* ... and not on who else is being served from the entry at the same moment: clients with the other Accept-Encodings ask
+     concurrently, each gets the encoding it would get alone, with a body that decodes to the original *)
+  /\ o.mixedBad = 0
   /\ (Cacheable(c) /\ comp = {TRUE} /\ c.size # "zero") =>
         /\ \A i \in DOMAIN o.storeOps : Best(o.storeOps[i])
         /\ Len(o.storeOps) = (IF EffUp(c) \in {"gzip", "br"} THEN 1 ELSE 2)
 
-Ok(o) == IF IOEnv.PROP = "C13" THEN OkC13(o) ELSE OkC05(o)
+Ok(o) == IF "storm" \in DOMAIN o.case THEN (o.asked > 0 /\ o.compressed = 0)
+         ELSE IF IOEnv.PROP = "C13" THEN OkC13(o) ELSE OkC05(o)
 
 CheckInit == l = 0
 CheckNext == l < Len(Obs) /\ l' = l + 1
